@@ -17,17 +17,21 @@ PROP = dict(
                        "Comdex.C05.limit_respected_first_batch", "Comdex.C05.price_uniform_first_batch",
                        "Comdex.C05.base_conserved_iff_lossless", "Comdex.C05.base_conserved_iff_lossless_single",
                        "Comdex.C05.distribution_exact_iff_lossless",
+                       "Comdex.C05.order_within_amount", "Comdex.C05.order_within_amount_after_batch",
+                       "Comdex.C05.order_within_amount_step", "Comdex.C05.offered_amount_within_open",
                        "Comdex.C05.pool_buy_amount_on_curve", "Comdex.C05.pool_sell_amount_on_curve",
                        "Comdex.C05.pool_buy_orders_within_reserves_and_curve",
                        "Comdex.C05.pool_sell_orders_within_reserves_and_curve", "Comdex.C05.pool_offers_within_reserves",
                        "Comdex.C05.base_conserved_counterexample"],
-    harness_tests=["TestC05"],
+    harness_tests=["TestC05", "TestC05Keeper"],
     trusted_base=[KERNEL_TB, HARNESS_TB, DEC_TB,
                   "Model/AmmMatch.lean is hand-written from x/liquidity/amm/{match,orderbook,util,order}.go and "
                   "x/liquidity/types/order.go (HasPriority); tied by running the real NewOrderBook / Match / MatchAtSinglePrice / "
                   "FindMatchableAmountAtSinglePrice / PriceDirection / SortOrders / DistributeOrderAmountToOrders / MatchableAmount / "
                   "FillOrder / FindMatchPrice / MakeView amounts / tick.go primitives / BasicPool curve functions / PoolBuyOrders / "
-                  "PoolSellOrders on real BaseOrder / UserOrder / PoolOrder / BasicPool objects and comparing every order's (open, paid, received, "
+                  "PoolSellOrders on real BaseOrder / UserOrder / PoolOrder / BasicPool objects; Model/AmmKeeper.lean (NewUserOrder, "
+                  "ApplyMatchResult write-back, expiry, pruning) is tied by driving the real liquidity keeper over several batches "
+                  "(MsgLimitOrder through the message router, EndBlocker / BeginBlocker) and comparing every stored order after every batch and comparing every order's (open, paid, received, "
                   "matched), quoteCoinDiff, match price, direction and outcome on every call",
                   "Dec / Int overflow panics (>315 / >256 bits) are not modelled: unreachable for amounts <= 10^40 and tick prices in "
                   "[10^-14, 10^20] (the generator range, no panic observed); a zero price is not modelled (ticks are positive)"],
@@ -36,8 +40,13 @@ PROP = dict(
                  "what MatchableAmount allows: buy paid <= offer, sell paid + open <= offer) — what NewUserOrder/NewPoolOrder establish",
                  "FindMatchPrice theorems: order prices are ticks of the precision used (OnGrid), 10^prec < 2^300; with pool curves in the "
                  "view (MultipleOrderViews) and for ranged pools the price / the pool orders are still inputs of the model",
+                 "keeper-level theorems (order_within_amount*): one pair without pools, limit orders only (no cancel / market / MM "
+                 "orders, no bank transfers and swap fees); a placed order's message price, fitted to the grid, is a positive tick "
+                 "(PlaceOk; proved for buy orders from lowestTick <= price <= highestTick, compared with the stored price for all)",
                  "pool theorems: basic pools, price limits within [10^-15, 10^18]; the BuyAmountTo order at the price limit is monitored only"],
-    rule="each case is one generated order book (1-12 real order objects: tick prices 1e-14..1e20 at precision 1-4, amounts "
+    rule="TestC05Keeper: each case is one fresh pair on the real keeper with 3-8 batches of real MsgLimitOrders (lifespans 0 / a few "
+         "blocks / 1 h; directed: carried-over orders partially filled at better-than-limit prices, later opposite liquidity); "
+         "TestC05: each case is one generated order book (1-12 real order objects: tick prices 1e-14..1e20 at precision 1-4, amounts "
          "straddling one quote unit / equal groups / tiny / huge, batch ids 0-3, user+pool or plain orders, offers exact/short/surplus) "
          "with one or more calls of the real engine on it; distinct = distinct trace text, non-trivial = at least one call matched",
 )
@@ -56,7 +65,9 @@ META = dict(
          "DistributeOrderAmountToOrders drops the remainder after a re-run) and characterised exactly (equality iff matchLossless). "
          "FindMatchPrice is modelled: a found price is a positive tick within [lowest sell, highest buy], found iff the book crosses; "
          "the first batch at that price respects every limit and fills at one price. Basic-pool order generation is modelled: every "
-         "order of the tick loops is within the running reserves and not beyond the constant-product curve.",
+         "order of the tick loops is within the running reserves and not beyond the constant-product curve. The keeper's glue is "
+         "modelled (stored order -> NewUserOrder -> matcher -> ApplyMatchResult -> expiry): over any number of batches no stored "
+         "order is filled beyond its amount, pays more than its offer coin, or trades worse than its limit.",
     note="Trusted: Lean kernel, Base/Dec.lean (differentially tested), the hand-written model as far as the correspondence run exercises "
          "it, distinct order objects, no 315-bit overflow. The dust bound is proved for lists of conserved fills and "
          "monitored (not proved) for the engine's composed result.",
